@@ -10,7 +10,7 @@
    property names: well-formed graph, every named module exists, subjects and
    objects pairwise unrelated in the hierarchy, both lists non-empty. *)
 From Coq Require Import List Bool NArith.
-From PTA Require Import Names Graph Search Worklist Rule SpecRule SpecLines NamesProofs SearchProofs RuleProofs GraphProofs WorklistProofs AlgebraProofs AliasProofs.
+From PTA Require Import Names Graph Search Worklist Rule WRule SpecRule SpecLines NamesProofs SearchProofs RuleProofs GraphProofs WorklistProofs WRuleProofs AlgebraProofs AliasProofs.
 Import ListNotations.
 
 Theorem C01_verdict :
@@ -132,6 +132,18 @@ Theorem C01_loop_other_in :
   exists r, w_other_in ceqb g ds u = Some r /\ res_equiv r (q_other_in ceqb g ds u).
 Proof. exact @w_other_in_refines. Qed.
 Print Assumptions C01_loop_other_in.
+
+(* ... and therefore the whole evaluation: Rule.assert_applies run over the transcribed loops (Model/WRule.v: same
+   conversion, requirement checks and eight buckets, the three graph queries being the worklist loops) never runs out of
+   fuel and has the outcome of [verdict] - same class, same error, same SET of report lines - for EVERY configuration
+   (any filters, regexes, aliases, incomplete or contradictory ones) on every such graph.  Every theorem about [verdict]
+   (C01_verdict, C03, C11, C12, C13, C15) thereby speaks about the loops of breadth_first_searches.py. *)
+Theorem C01_loops_verdict :
+  forall (comp : Type) (ceqb : comp -> comp -> bool), (forall x y, reflect (x = y) (ceqb x y)) ->
+  forall (rmatch : N -> list comp -> bool) g, wf_graph g -> anc_closed g -> no_hier_imports ceqb g -> forall c,
+  exists o, w_assert_applies ceqb rmatch g c = Some o /\ outcome_equiv o (verdict ceqb rmatch g c).
+Proof. intros comp ceqb Hs rmatch g Hwf Hanc Hnh c. exact (w_assert_applies_refines ceqb Hs rmatch g Hwf Hanc Hnh c). Qed.
+Print Assumptions C01_loops_verdict.
 
 (* ---- non-vacuity: a 7-module tree with 5 imports and a 2-subject / 2-object rule is strict ---- *)
 Open Scope N_scope.
